@@ -61,10 +61,14 @@ def get_facts(crate_dir="/repo", config="default", crate_name="flatcontainer", e
     key = tree_hash(crate_dir, config + "|" + crate_name)
     dest = os.path.join(CACHE, "facts-%s-%s.json" % (config, key[:32]))
     nocache = os.environ.get("VERIF_NOCACHE") == "1"
-    lock = open(os.path.join(CACHE, "lock-" + config), "w")
+    lock = open(os.path.join(CACHE, "lock-%s-%s" % (config, key[:16])), "w")
     fcntl.flock(lock, fcntl.LOCK_EX)
     try:
         if os.path.exists(dest) and not nocache:
+            try:
+                os.utime(dest, None)
+            except OSError:
+                pass
             return dest
         tdir = tempfile.mkdtemp(prefix="fc-target.")
         odir = tempfile.mkdtemp(prefix="fc-out.")
@@ -102,7 +106,8 @@ def get_facts(crate_dir="/repo", config="default", crate_name="flatcontainer", e
         lock.close()
 
 
-def prune(keep=6):
+def prune(keep=20):
+    """least-recently-used eviction (a cache hit touches the file); stale lock files go too"""
     fs = [os.path.join(CACHE, f) for f in os.listdir(CACHE) if f.startswith("facts-")]
     fs.sort(key=lambda p: os.path.getmtime(p), reverse=True)
     for p in fs[keep:]:
@@ -110,3 +115,12 @@ def prune(keep=6):
             os.remove(p)
         except OSError:
             pass
+    now = time.time()
+    for f in os.listdir(CACHE):
+        if f.startswith("lock-"):
+            p = os.path.join(CACHE, f)
+            try:
+                if now - os.path.getmtime(p) > 3600:
+                    os.remove(p)
+            except OSError:
+                pass
